@@ -163,7 +163,8 @@ class SocketWrapper:
                 # residual bytes at beginning of stream
                 break
             if chunk_length != 0:
-                chunk = instream.read(chunk_length)
+                # a chunk cannot be longer than the segment holding it
+                chunk = instream.read(min(chunk_length, len(segment)))
                 term = instream.readline()
                 if len(chunk) != chunk_length or term[-1:] != b"\n":
                     # premature end of chunk bytes or of chunk terminator
